@@ -148,7 +148,7 @@ class Engine:
         self.index_log = []    # (node, frame, range kind, start, end) of every range-indexing of a slice
         self.steps = 0
         self.deadline = None         # wall-clock limit of the current exploration (set by World)
-        self.max_join_states = 6000  # more states than this at one join point = state explosion, give up
+        self.max_join_states = 2500  # more states than this at one join point = state explosion, give up
         self.iter_summaries = {}
         self.return_hooks = []   # called when an inlined crate-local call returns: (eng, state, caller frame, bb, callee body, returned subtree)
         self.iter_loops = {}   # synthetic loops of closure-taking iterator adapters: (callable frame, 0) -> info
